@@ -13,7 +13,8 @@
    The model and the round trip of the tree codec are builder tree-b's (Model/TreeCodec.v, Proofs/TreeCodecProofs.v). *)
 From Coq Require Import Ascii.
 From Pyro Require Import Model.Base Model.Tree Model.Varint Model.TTrie Model.TextFormats Model.TreeCodec Model.Ingest.
-From Pyro Require Import Proofs.TTrieProofs Proofs.C18SortedProofs Proofs.TextFormatsProofs Proofs.TreeCodecProofs Proofs.C06ProfileProofs.
+From Pyro Require Import Model.UrlCoding.
+From Pyro Require Import Proofs.TTrieProofs Proofs.C18SortedProofs Proofs.TextFormatsProofs Proofs.TreeCodecProofs Proofs.C06ProfileProofs Proofs.C06UrlProofs.
 
 Local Open Scope N_scope.
 
@@ -108,3 +109,39 @@ Proof.
   repeat constructor; cbn [fst snd]; try discriminate; try reflexivity;
     try (intros s c E Hc; subst c; apply (f_equal (@rev _)) in E; rewrite rev_app_distr in E; cbn in E; discriminate).
 Qed.
+
+(* ---- the URL query coding between uploader and handler (Model/UrlCoding.v: url.QueryEscape / Values.Encode on the
+   agent's side, r.URL.Query() = url.ParseQuery with its error dropped on the server's side) loses nothing.
+   bytes_okP s: every element of s is a byte (< 256); pair_ok: both sides of a pair are; keys_sortedb: keys strictly
+   increasing (Encode writes the keys in sorted order; sort_query is that order). ---- *)
+Theorem C06_url_roundtrip :
+  (forall s, bytes_okP s -> url_unescape (url_escape s) = Some s) /\
+  (forall q, Forall pair_ok q -> url_parse_query (url_encode_query q) = sort_query q) /\
+  (forall q, Forall pair_ok q -> keys_sortedb q = true -> url_parse_query (url_encode_query q) = q) /\
+  (forall a b, bytes_okP a -> bytes_okP b -> url_escape a = url_escape b -> a = b) /\
+  (forall q1 q2, Forall pair_ok q1 -> Forall pair_ok q2 -> url_encode_query q1 = url_encode_query q2 -> sort_query q1 = sort_query q2).
+Proof.
+  exact (conj url_unescape_escape (conj url_parse_encode (conj url_roundtrip (conj url_escape_injective url_encode_injective)))).
+Qed.
+Print Assumptions C06_url_roundtrip.
+
+Example C06_url_roundtrip_nonvacuous :
+  let q := [(ascii "name", ascii "app.c++{team=r&d,q=100%}"); (ascii "units", [108; 111; 99; 107; 32; 195; 169; 47; 115])] in
+  Forall pair_ok q /\ keys_sortedb q = true /\
+  url_encode_query q = ascii "name=app.c%2B%2B%7Bteam%3Dr%26d%2Cq%3D100%25%7D&units=lock+%C3%A9%2Fs" /\
+  url_parse_query (url_encode_query q) = q.
+Proof.
+  split; [repeat constructor; cbn [fst snd]; try apply ascii_bytes_ok; repeat constructor; cbn; lia|].
+  vm_compute. repeat split.
+Qed.
+
+(* C06_job_roundtrip with the request line in between: the uploader encodes its query (Values.Encode), the handler
+   parses the raw query string (r.URL.Query()) and reads the job's own parameters.  job_bytes_ok: name, spy name,
+   units and aggregation type are byte strings. *)
+Theorem C06_job_roundtrip_url : forall j, job_ok j -> job_bytes_ok j ->
+  ingest_params_of (url_parse_query (url_encode_query (upload_query j))) upload_content_type =
+  {| ip_format := FTrie; ip_name := j_name j;
+     ip_from := TUnix (Z.of_N (j_start j)); ip_until := TUnix (Z.of_N (j_end j));
+     ip_spy := j_spy j; ip_rate := j_rate j; ip_units := j_units j; ip_aggregation := j_aggregation j |}.
+Proof. exact job_roundtrip_url. Qed.
+Print Assumptions C06_job_roundtrip_url.
